@@ -133,7 +133,7 @@ CONTRACTS = {
         "returns": "Ref:_State", "returns_fresh": True, "raises": ["InvalidStateName", "ValueError"], "modifies": [],
         "requires": dict({"a function object": "f is not None"}, **_SIG_WF),
         "drop_callee_ensures": {"_State.__init__": ["C03.P1"]},
-        "ensures": {"C12.D3 (also C02) @timed_state(duration=d, next_state=n, first=.., must_finish=..) makes a plain state carrying exactly these settings; the successor link is always present (None: last state)":
+        "ensures": {"C12.D3 (also C02, C01) @timed_state(duration=d, next_state=n, first=.., must_finish=..) makes a plain state carrying exactly these settings; the successor link is always present (None: last state)":
                     "result is not None and not result.is_default and result.first == first and result.must_finish == must_finish and result.name == f.__name__ and "
                     "result.duration == duration and has_attr(result, 'next_state') and result.next_state == next_state"},
         "ensures_raise": {"only the definition errors of _State": "exc == 'InvalidStateName' or exc == 'ValueError'"},
@@ -161,7 +161,7 @@ CONTRACTS = {
         "receivers": ["_StateData"], "ctor": True, "params": {"wrapper": "Ref:_State"},
         "requires": {"wrapper given": "wrapper is not None"},
         "modifies": ["self.name", "self.duration_attr", "self.expires", "self.ran", "self.run", "self.must_finish", "self.next_state", "self.?next_state"],
-        "ensures": {"C12.S1 the run-time record copies the state's name, adapter and must_finish flag, is fresh, and only timed states carry next_state":
+        "ensures": {"C12.S1 (also C02, C03, C04: duration attribute name '<state>_duration', never-ran, must_finish) the run-time record copies the state's name, adapter and must_finish flag, is fresh, and only timed states carry next_state":
                     "self.name == wrapper.name and self.run is wrapper.run and self.must_finish == wrapper.must_finish and not self.ran and self.expires == 4294967295 "
                     "and self.duration_attr == wrapper.name + '_duration' and has_attr(self, 'next_state') == has_attr(wrapper, 'next_state') "
                     "and implies(has_attr(wrapper, 'next_state'), self.next_state == wrapper.next_state)"},
@@ -207,7 +207,7 @@ CONTRACTS = {
         "receivers": ["_State"], "params": {"owner": "Ref:OwnerCls", "name": "Str"}, "raises": ["InvalidStateName", "TypeError"],
         "requires": {"class being defined": "owner is not None"}, "modifies": ["owner.g_attrs"],
         "ensures": {"C12.N1 a state is accepted only under its own name and only in a StateMachine subclass": "name == self.name and is_sm_subclass(owner)",
-                    "C12.N3 a timed state gets the tunable '<name>_duration' (default = the declared duration, writeDefault False, subtable 'state') unless the class already has one; nothing else on the class changes":
+                    "C12.N3 (also C02: the duration tunable of a timed state) a timed state gets the tunable '<name>_duration' (default = the declared duration, writeDefault False, subtable 'state') unless the class already has one; nothing else on the class changes":
                     "implies(self.duration is not None, has(owner.g_attrs, name + '_duration') and owner.g_attrs[name + '_duration'] is not None and "
                     "(owner.g_attrs[name + '_duration'] is old(owner.g_attrs[name + '_duration']) if old(has(owner.g_attrs, name + '_duration') and owner.g_attrs[name + '_duration'] is not None) else "
                     "(owner.g_attrs[name + '_duration'].g_default == unwrap(self.duration) and not owner.g_attrs[name + '_duration'].g_write and owner.g_attrs[name + '_duration'].g_sub == 'state'))) and "
@@ -240,11 +240,11 @@ CONTRACTS = {
         }}},
         "ensures": {
             "C12.B1 a machine can be instantiated only with exactly one first state and at most one default state": "count_first(g_members, len(keys(g_members))) == 1 and count_default(g_members, len(keys(g_members))) <= 1",
-            "C12.B2 the state table has one fresh record per state member; the first and default states are recorded":
+            "C12.B2 (also C01, C02, C04, C13: the table the run-time contracts assume) the state table has one fresh record per state member; the first and default states are recorded":
                 "forall(k, Str, has(self._StateMachine__states, k) == (has(g_members, k) and is_state(g_members[k]))) and has(self._StateMachine__states, self._StateMachine__first) "
                 "and is_state(g_members[self._StateMachine__first]) and g_members[self._StateMachine__first].first "
                 "and (self._StateMachine__default_state is None) == (count_default(g_members, len(keys(g_members))) == 0)",
-            "C12.B3 a new machine is stopped: not requested, not engaged, no current state": "not self._StateMachine__should_engage and not self._StateMachine__engaged and self._StateMachine__state is None and self._StateMachine__start == 0",
+            "C12.B3 (also C01, C04, C13) a new machine is stopped: not requested, not engaged, no current state": "not self._StateMachine__should_engage and not self._StateMachine__engaged and self._StateMachine__state is None and self._StateMachine__start == 0",
         },
         "ensures_raise": {
             "C12.B5 NoFirstStateError exactly when no state is marked first": "implies(exc == 'NoFirstStateError', count_first(g_members, len(keys(g_members))) == 0)",
